@@ -192,7 +192,33 @@ def correspond(res):
             p_cases.append(f"({ps_lit(nu)}, {axis_lit(grid.axes[0])}, {natlit(o)}, {qlit(float(lam))}, "
                            f"{lst([f'({natlit(k)}, {qlit(p)})' for k, p in ps_])})")
 
+    # ---- TruncatedLevyMeasure.integrate with the clipping branch active (a, b outside / straddling [l, r], b < l, r < a)
+    from rpylib.model.levymodel.levymodel import TruncatedLevyMeasure
+    clip_cases = []
+    for it in range(120 if not thorough else 1200):
+        l, r = -Fr(rng.randrange(1, 17), 4), Fr(rng.randrange(1, 17), 4)
+        nu = random_step_measure(rng, l - Fr(rng.randrange(0, 9), 4), r + Fr(rng.randrange(0, 9), 4), bits=2, cover=True, max_pieces=5)
+        t = TruncatedLevyMeasure(nu, (float(l), float(r)))
+        kind = rng.choice(["inside", "left-out", "right-out", "straddle-l", "straddle-r", "cover", "touch"])
+        span = r - l
+        pick = {"inside": (l + span / 4, r - span / 4), "left-out": (l - 3, l - 1), "right-out": (r + 1, r + 2),
+                "straddle-l": (l - 1, l + span / 2), "straddle-r": (r - span / 2, r + 2), "cover": (l - 2, r + 3), "touch": (l - 1, l)}[kind]
+        a = pick[0] + Fr(rng.randrange(0, 4), 8)
+        b = max(a, pick[1] - Fr(rng.randrange(0, 4), 8))
+        got = t.integrate(float(a), float(b))
+        aa, bb = t._truncated_interval(float(a), float(b))
+        res.count(("clip", it, kind), nontrivial=(aa, bb) != (float(a), float(b)), kind="TruncatedLevyMeasure.integrate")
+        res.bump("clip_kind", kind)
+        res.bump("clip_changed_interval", (aa, bb) != (float(a), float(b)))
+        want = nu.moment_q(min(max(a, l), r), max(min(b, r), l), 0) if min(max(a, l), r) < max(min(b, r), l) else Fr(0)
+        if Fr(float(got)) != want:
+            viol("TruncatedLevyMeasure.integrate is not the mass of the intersection with the truncation interval",
+                 kind="clip", measure=step_spec(nu), l=float(l), r=float(r), a=float(a), b=float(b), got=float(got), want=float(want))
+        clip_cases.append(f"({ps_lit(nu)}, {qlit(l)}, {qlit(r)}, {qlit(a)}, {qlit(b)}, {qlit(float(got))})")
+
     groups = [
+        ("clip", "list (Q * Q * Q) * Q * Q * Q * Q * Q",
+         "fun c => match c with (ps, l, r, a, b, e) => Qeq_bool (tmass (step_mass ps) l r a b) e end", clip_cases),
         ("qvec", "list (Q * Q * Q) * list Q * nat * list Q * Q",
          "fun c => match c with (ps, xs, o, q, lam) => qlist_eqb (chain_q_vector ps xs o) q && Qeq_bool (chain_intensity ps xs o) lam end", q_cases),
         ("prob", "list (Q * Q * Q) * list Q * nat * Q * list (nat * Q)",
@@ -328,23 +354,35 @@ def independent_mass2(F, U, a, b):
     return quad_rect(a1, b1, a2, b2)
 
 
-def _copula_stream(res, rng, viol):
-    """two LevyCopulaModel instances with different margins alive in the same process; the rates of BOTH are compared
-    with an independent computation (own Clayton formula, own tail integrals from the step margins)"""
+def _copula_stream(res, rng, viol, configs=None):
+    """several LevyCopulaModel instances with different (random) margins alive in the same process; the rates of ALL are
+    compared with an independent computation (own Clayton formula, own tail integrals of the margins truncated to the grid).
+    configs (JSON-able, stored in every replay): [{margins: [step specs], nb: points, levels: refinements}], theta, eta."""
     from rpylib.process.markovchain.markovchainlevycopula import MarkovChainLevyCopula
     from rpylib.distribution.sampling import SamplingMethod
     from rpylib.grid.spatial import CTMCUniformGrid
-    from stepmeasure import StepMeasure, step_spec, build_copula_model
+    from stepmeasure import StepMeasure, step_spec, build_copula_model, build_model
     import itertools
-    theta, eta = 0.75, 0.25
-    margin_sets = [
-        [StepMeasure([Fr(-2), Fr(0), Fr(2)], [Fr(3, 2), Fr(3)], strict=False), StepMeasure([Fr(-2), Fr(0), Fr(2)], [Fr(3), Fr(3, 4)], strict=False)],
-        [StepMeasure([Fr(-2), Fr(-1), Fr(0), Fr(2)], [Fr(3, 4), Fr(9, 4), Fr(6)], strict=False), StepMeasure([Fr(-2), Fr(0), Fr(1), Fr(2)], [Fr(9, 2), Fr(3, 4), Fr(3)], strict=False)],
-    ]
+    from stepmeasure import random_step_measure as _rsm
+    if configs is None:
+        def rnd_margin():
+            m = _rsm(rng, Fr(-2), Fr(2), bits=1, cover=True, max_pieces=4, zero_prob=0.0)
+            m.strict = False
+            return step_spec(m)
+        fixed = [step_spec(StepMeasure([Fr(-2), Fr(0), Fr(2)], [Fr(3, 2), Fr(3)], strict=False)),
+                 step_spec(StepMeasure([Fr(-2), Fr(0), Fr(2)], [Fr(3), Fr(3, 4)], strict=False))]
+        configs = {"theta": rng.choice([0.5, 0.75, 1.25, 2.0]), "eta": rng.choice([0.25, 0.5, 0.9]),
+                   "chains": [{"margins": fixed, "nb": 6, "levels": 0},
+                              {"margins": [rnd_margin(), rnd_margin()], "nb": rng.choice([4, 6]), "levels": rng.choice([0, 1])},
+                              {"margins": [rnd_margin(), rnd_margin()], "nb": 4, "levels": 1}]}
+    theta, eta = configs["theta"], configs["eta"]
     chains = []
-    for ms in margin_sets:      # build both first, then evaluate (a cache shared across instances would mix them up)
-        model = build_copula_model([step_spec(m) for m in ms], "clayton", theta=theta, eta=eta)
-        grid = CTMCUniformGrid.create_from_fixed_nb_of_points(h=0.5, nb_of_points=6, dimension=2)
+    for cf in configs["chains"]:      # build all first, then evaluate (a cache shared across instances would mix them up)
+        model = build_copula_model(cf["margins"], "clayton", theta=theta, eta=eta)
+        grid = CTMCUniformGrid.create_from_fixed_nb_of_points(h=0.5, nb_of_points=cf["nb"], dimension=2)
+        for _ in range(cf["levels"]):
+            grid.refine()
+        ms = [build_model(sp).levy_triplet.nu for sp in cf["margins"]]
         chains.append((ms, MarkovChainLevyCopula(levy_copula_model=model, grid=grid, method=SamplingMethod.INVERSION), grid))
     for which, (ms, chain, grid) in enumerate(chains):
         def tail(k):
@@ -367,7 +405,7 @@ def _copula_stream(res, rng, viol):
         n, o = len(ax), grid.origin_coordinate.value[0]
         lam = float(chain.intensity_of_jumps)
         tot = 0.0
-        ctx = dict(kind="copula", instance=which, margins=[step_spec(m) for m in ms], theta=theta, eta=eta)
+        ctx = dict(kind="copula", instance=which, configs=configs, grid_points=len(grid.axes[0]))
         for i, j in itertools.product(range(n), repeat=2):
             if (i, j) == (o, o):
                 continue
@@ -404,7 +442,8 @@ def replay(path):
     from stepmeasure import build_model, make_grid
     if data.get("kind") == "copula":
         out = []
-        _copula_stream(type("R", (), {"count": lambda *a, **kw: None})(), random.Random(0), lambda what, **kw: out.append((what, kw.get("state"), kw.get("got"), kw.get("want"))))
+        _copula_stream(type("R", (), {"count": lambda *a, **kw: None})(), random.Random(0),
+                       lambda what, **kw: out.append((what, kw.get("state"), kw.get("got"), kw.get("want"))), configs=data.get("configs"))
         print("still fails:" if out else "no failure on replay", out[:3])
         return 1 if out else 0
     if data.get("kind") not in ("step", "real"):
